@@ -414,3 +414,14 @@ impl Fp12 {
         t
     }
 }
+
+#[cfg(gm_rs_verif)]
+impl Fp12 {
+    pub(crate) fn verif_frobenius1(&self) -> Self {
+        self.fp12_frobenius()
+    }
+
+    pub(crate) fn verif_frobenius3(&self) -> Self {
+        self.fp12_frobenius3()
+    }
+}
